@@ -9,7 +9,7 @@
    not mention the store: function names and heap positions are not observable by bodies that are
    closed after capture ([hob] + the free-variable condition).
 
-   Parameters of the development (Section variables): which operators / built-ins a body may
+   Knobs of the development (Section variables): which operators / built-ins a body may
    mention ([opok], [biok]) — the instantiations (EmitHOOps.v) choose them. *)
 From Coq Require Import String Ascii List ZArith Bool Lia.
 Require Import Blots.Num Blots.gen.Builtins Blots.Ast Blots.Value Blots.Outcome Blots.Binop
